@@ -17,8 +17,15 @@ Property theorems only (definitions of the specification and helper lemmas live 
   statements; `f = true` is `ThemeContext.__enter__` of rich 9.10.0 as found (it ignores `inherit`), `f = false` the
   repaired code (fix 2ea71d3, what /repo contains now).
 * `runF` / `runMT shared f` run flat atomic steps (each in its own `try`) on one stack / on the stacks
-  of several threads; `shared = true` is `ConsoleThreadLocals` as found (one `ThemeStack` object for
-  all threads), `false` one stack per thread over the same base theme.
+  of several threads; `shared = true` is what the code does (`threading.local` hands every thread the
+  same `ThemeStack` object), `false` a hypothetical variant with one stack per thread.
+  **Threads are outside property C20**: its statement quantifies over sequences of pushes, pops and
+  `use_theme` blocks on one thread, and the sharing is load-bearing (a `Live` / `Progress` refresh
+  thread must see the themes the main thread pushed).  The shared stack is therefore *not* a defect
+  and not a finding; `threads_share_one_stack` and `thread_isolation` below only document the two
+  variants, and the harness compares real two- and three-thread runs with the `shared = true` model in
+  the correspondence (so a change of that behaviour is noticed as model ≠ code) without evaluating
+  any property on them.
 * `Console(theme=…)`: `ThemeStack(themes.DEFAULT if theme is None else theme)`.  A variant testing
   `if not theme` instead of `is None` is *equivalent*, not a gap: `Theme` defines neither `__bool__`
   nor `__len__`, so every `Theme` instance is truthy and both tests pick `themes.DEFAULT` exactly for
@@ -222,18 +229,19 @@ theorem inherit_snapshot_is_stale :
 
 /-! ## threads -/
 
-/-- **thread_isolation** (one `ThemeStack` per thread, the repaired `ConsoleThreadLocals`): for
-every interleaving of the steps of any number of threads, a thread's stack is what its own steps
-(plus everybody's assignments to the shared base dict) produce when run alone — pushes and pops of
-other threads are invisible, so balanced blocks restore per thread. -/
+/-- **thread_isolation** — documentation, about the *hypothetical* variant with one `ThemeStack` per
+thread (`shared = false`; not what the code does, and not required by C20): for every interleaving
+of the steps of any number of threads, a thread's stack is what its own steps (plus everybody's
+assignments to the shared base dict) produce when run alone. -/
 theorem thread_isolation (f : Bool) (tid : Nat) (sch : List (Nat × FStep σ)) (S : Nat → Stack σ) :
     runMT false f sch S tid = runF f ((sch.filter (relevant tid)).map (·.2)) (S tid) :=
   runMT_isolated f tid sch S
 
-/-- The code as found: `threading.local` hands every thread the same `ThemeStack` object.  Thread 1,
-which never pushed, sees thread 0's theme (`a ↦ 2`); and thread 1's `pop_theme` removes thread 0's
-theme, so thread 0's lookup changes under its feet. -/
-theorem old_theme_stack_shared_across_threads :
+/-- What the code does (documentation, not a defect): `threading.local` hands every thread the same
+`ThemeStack` object.  Thread 1, which never pushed, sees thread 0's theme (`a ↦ 2`) — this is what
+lets a refresh thread render with the themes the main thread pushed — and a `pop_theme` in thread 1
+removes it again; in the per-thread variant neither happens. -/
+theorem threads_share_one_stack :
     let S0 : Nat → Stack Nat := fun _ => Stack.init ⟨[(['a'], 1)]⟩
     (runMT true false [(0, .push ⟨[(['a'], 2)]⟩ false)] S0 (slotOf true 1)).get ['a'] = some 2 ∧
     (runMT false false [(0, .push ⟨[(['a'], 2)]⟩ false)] S0 (slotOf false 1)).get ['a'] = some 1 ∧
